@@ -39,6 +39,13 @@ def opPyRt (j : Json) : Except String Json := do
       let xs ← (← getArrL j "xs").mapM fun v => do pure (← v.getStr?).toList
       pure (str (join s xs))
   | "len" => pure (Json.mkObj [("r", Json.num (JsonNumber.fromInt (len s)))])
+  | "idxStr" => do
+      let k ← (← j.getObjVal? "n").getInt?
+      if inRange (len s) k then pure (str (idxStr s k)) else pure (Json.mkObj [("r", Json.mkObj [("raised", Json.str "IndexError")])])
+  | "idxList" => do
+      let xs ← (← getArrL j "xs").mapM fun v => do pure (← v.getStr?).toList
+      let k ← (← j.getObjVal? "n").getInt?
+      if inRange (len xs) k then pure (str (idxList xs k)) else pure (Json.mkObj [("r", Json.mkObj [("raised", Json.str "IndexError")])])
   | _ => throw s!"unknown primitive {f}"
 
 def opsPyRt : List (String × (Json → Except String Json)) := [("pyrt", opPyRt)]
